@@ -171,10 +171,13 @@ def run(ctx: Ctx) -> None:
     if gen is not None and len(gen.generators) == 1 and isinstance(
             gen.generators[0].target, ast.Name):
         rv_ = gen.generators[0].target.id
+        def factors(e_: ast.expr) -> list[str]:
+            if isinstance(e_, ast.BinOp) and isinstance(e_.op, ast.Mult):
+                return factors(e_.left) + factors(e_.right)
+            return [ast.unparse(e_).replace(" ", "")]
         ok4 = ast.unparse(gen.generators[0].iter) == ip and \
-            not gen.generators[0].ifs and sorted(ast.unparse(
-                gen.elt).replace(" ", "").split("*")) == sorted(
-                f"int({rv_}[{k_}])" for k_ in (0, 1, 2))
+            not gen.generators[0].ifs and sorted(factors(gen.elt)) == \
+            sorted(f"int({rv_}[{k_}])" for k_ in (0, 1, 2))
     ctx.ob("D3.1", pr, pr.node, ok3 and ok4,
            "packing_result.__lb_geometric is the same exact ceiling over "
            "all rows" if ok3 and ok4 else
